@@ -139,6 +139,11 @@ func runCase(c Case) (nt bool, classes []string, err error) {
 		switch outcome {
 		case "error":
 			return nil, injected
+		case "error-full":
+			// the usual `return results, err` of a loop that gave up: results AND an error
+			return res, injected
+		case "error-partial":
+			return res[:(len(res)+1)/2], injected
 		case "panic":
 			panic(fmt.Sprintf("boom-%d", k))
 		case "short":
@@ -310,7 +315,7 @@ func runCase(c Case) (nt bool, classes []string, err error) {
 		}
 		inv := invs[ks[0]]
 		switch inv.outcome {
-		case "error":
+		case "error", "error-full", "error-partial":
 			if r.err != injected {
 				return false, nil, fmt.Errorf("caller %d: got %q, want the injected error of invocation %d", i, r.err, ks[0])
 			}
@@ -352,7 +357,7 @@ func genCase(t *rapid.T) Case {
 		Limit:           rapid.SampledFrom([]int{0, 0, 1, 2, 5}).Draw(t, "limit"),
 	}
 	c.MaxSize = rapid.SampledFrom([]int{0, 0, 1, 2, 3, 5, n}).Draw(t, "maxsize")
-	c.Plan = rapid.SliceOfN(rapid.SampledFrom([]string{"ok", "ok", "ok", "error", "panic", "short", "long", "slow"}), 0, 6).Draw(t, "plan")
+	c.Plan = rapid.SliceOfN(rapid.SampledFrom([]string{"ok", "ok", "ok", "error", "error-full", "error-partial", "panic", "short", "long", "slow"}), 0, 6).Draw(t, "plan")
 	burst := rapid.Bool().Draw(t, "burst")
 	cancels := rapid.IntRange(0, 3).Draw(t, "cancelrate")
 	for i := 0; i < n; i++ {
